@@ -156,71 +156,63 @@ theorem loadPath_le (w : World) (st : St) (p : PathE) : StLe st (loadPath w st p
       · exact h1.trans (importSubs_le w _ _ s1)
       · exact h1
 
-theorem getLoop_le (w : World) (iface : ClassId) (r : Ref) (todo : List PathE) (st : St) :
-    StLe st (getLoop w iface r st todo).1 := by
-  induction todo generalizing st with
-  | nil => exact StLe.refl _
-  | cons p rest ih =>
+theorem getLoop_le (w : World) (iface : ClassId) (r : Ref) (n : Nat) (st : St) (searched : List Mod) :
+    StLe st (getLoop w iface r n st searched).1 := by
+  induction n generalizing st searched with
+  | zero => exact StLe.refl _
+  | succ n ih =>
     simp only [getLoop]
     split
     · exact StLe.refl _
-    · have h1 := loadPath_le w st p
-      cases hl : loadPath w st p with
-      | mk s1 e1 =>
-        rw [hl] at h1
-        cases e1 with
-        | some e => exact h1
-        | none => exact h1.trans (ih s1)
+    · cases hn : nextPath (getBank iface st.banks) r searched with
+      | none => exact StLe.refl _
+      | some p =>
+        simp only
+        have h1 := loadPath_le w st p
+        cases hl : loadPath w st p with
+        | mk s1 e1 =>
+          rw [hl] at h1
+          cases e1 with
+          | some e => exact h1
+          | none => exact h1.trans (ih s1 _)
 
 /-- a lookup never removes anything from the process state — in particular no search path of any bank -/
-theorem get_le (w : World) (st : St) (iface : ClassId) (r : Ref) (order : List Mod) :
-    StLe st (get w st iface r order).1 := by
+theorem get_le (w : World) (st : St) (iface : ClassId) (r : Ref) : StLe st (get w st iface r).1 := by
   unfold get
-  cases lookupRef r (getBank iface st.banks).provider with
-  | some c => exact StLe.refl _
-  | none =>
-    simp only
-    have h1 := getLoop_le w iface r (todoPaths (getBank iface st.banks) r order) st
-    cases hl : getLoop w iface r st (todoPaths (getBank iface st.banks) r order) with
-    | mk s1 e1 =>
-      rw [hl] at h1
-      cases e1 with
-      | some e => exact h1
-      | none =>
-        simp only [finish]
-        split <;> exact h1
+  have h1 := getLoop_le w iface r (searchFuel w) st []
+  cases hl : getLoop w iface r (searchFuel w) st [] with
+  | mk s1 e1 =>
+    rw [hl] at h1
+    cases e1 with
+    | some e => exact h1
+    | none =>
+      simp only [finish]
+      split <;> exact h1
 
 /-- a returned class is bound in the resulting state -/
-theorem get_ok_bound (w : World) (st : St) (iface : ClassId) (r : Ref) (order : List Mod) (c : ClassId)
-    (h : (get w st iface r order).2 = .ok c) :
-    lookupRef r (getBank iface (get w st iface r order).1.banks).provider = some c := by
+theorem get_ok_bound (w : World) (st : St) (iface : ClassId) (r : Ref) (c : ClassId)
+    (h : (get w st iface r).2 = .ok c) :
+    lookupRef r (getBank iface (get w st iface r).1.banks).provider = some c := by
   unfold get at h ⊢
-  cases h0 : lookupRef r (getBank iface st.banks).provider with
-  | some d =>
-    simp only [h0] at h ⊢
-    cases h
-    rfl
+  generalize getLoop w iface r (searchFuel w) st [] = res at h ⊢
+  obtain ⟨s1, e1⟩ := res
+  cases e1 with
+  | some e => simp [finish] at h
   | none =>
-    simp only [h0] at h ⊢
-    generalize getLoop w iface r st (todoPaths (getBank iface st.banks) r order) = res at h ⊢
-    obtain ⟨s1, e1⟩ := res
-    cases e1 with
-    | some e => simp [finish] at h
-    | none =>
-      simp only [finish] at h ⊢
-      cases h2 : lookupRef r (getBank iface s1.banks).provider with
-      | none => simp [h2] at h
-      | some d => simp only [h2] at h ⊢; cases h; rfl
+    simp only [finish] at h ⊢
+    cases h2 : lookupRef r (getBank iface s1.banks).provider with
+    | none => simp [h2] at h
+    | some d => simp only [h2] at h ⊢; cases h; rfl
 
-/-- a bound reference is answered from the table -/
-theorem get_of_bound (w : World) (st : St) (iface : ClassId) (r : Ref) (order : List Mod) (c : ClassId)
-    (h : lookupRef r (getBank iface st.banks).provider = some c) : (get w st iface r order).2 = .ok c := by
-  simp [get, h]
+/-- a bound reference is answered from the table (the loop is not entered) -/
+theorem get_of_bound (w : World) (st : St) (iface : ClassId) (r : Ref) (c : ClassId)
+    (h : lookupRef r (getBank iface st.banks).provider = some c) : get w st iface r = (st, .ok c) := by
+  simp [get, searchFuel, getLoop, h, finish]
 
 /-- what a process does between two lookups: `import` statements (each in try/except) and other lookups -/
 inductive HOp where
   | imp : Mod → HOp
-  | get : ClassId → Ref → List Mod → HOp
+  | get : ClassId → Ref → HOp
 
 def runHist (w : World) (st : St) : List HOp → St
   | [] => st
@@ -228,7 +220,7 @@ def runHist (w : World) (st : St) : List HOp → St
     match importMod w st m with
     | none => runHist w (afterNotFound w st m) rest
     | some (st', _) => runHist w st' rest
-  | .get i r o :: rest => runHist w (get w st i r o).1 rest
+  | .get i r :: rest => runHist w (get w st i r).1 rest
 
 theorem runHist_le (w : World) (ops : List HOp) (st : St) : StLe st (runHist w st ops) := by
   induction ops generalizing st with
@@ -242,9 +234,9 @@ theorem runHist_le (w : World) (ops : List HOp) (st : St) : StLe st (runHist w s
       | some r =>
         obtain ⟨s1, e1⟩ := r
         exact (importMod_le w st m _ hi).trans (ih s1)
-    | get i r o =>
+    | get i r =>
       simp only [runHist]
-      exact (get_le w st i r o).trans (ih _)
+      exact (get_le w st i r).trans (ih _)
 
 theorem runHist_sound (w : World) (ops : List HOp) (st : St) (hs : StSound (InWorld w) st) :
     StSound (InWorld w) (runHist w st ops) := by
@@ -259,8 +251,8 @@ theorem runHist_sound (w : World) (ops : List HOp) (st : St) (hs : StSound (InWo
       | some r =>
         obtain ⟨s1, e1⟩ := r
         exact ih s1 (importMod_sound w st m hs _ hi)
-    | get i r o =>
+    | get i r =>
       simp only [runHist]
-      exact ih _ (get_sound w st i r o hs).1
+      exact ih _ (get_sound w st i r hs).1
 
 end ForML.Bank
